@@ -60,8 +60,14 @@ let doc cs =
        let trav = List.mapi (fun i f -> string_of_int i ^ frag_tag f) tr in
        let b = Buffer.create 128 in
        walk v cm O b;
-       Printf.sprintf "V=%d C=%d CA=%d T=%s F=%s S=1 N=%s"
+       let cnt p = List.length (List.filter p (List.mapi (fun i f -> (i, f)) tr)) in
+       Printf.sprintf "V=%d C=%d CA=%d/%d/%d/%d/%d/%d T=%s F=%s S=1 N=%s"
          (ii (value_volume v)) count (ii (count_where is_container v))
+         (cnt (fun _ -> true))
+         (cnt (fun (_, f) -> match f with FKey _ -> true | _ -> false))
+         (cnt (fun (_, f) -> match f with FEntry _ -> true | _ -> false))
+         (cnt (fun (i, _) -> i mod 2 = 0))
+         (cnt (fun (i, f) -> i mod 3 = 1 && (match f with FValue _ -> true | _ -> false)))
          (Stdlib.String.concat "," trav) (Stdlib.String.concat "," frags)
          (if Buffer.length b = 0 then " -" else Buffer.contents b)
      with Nav_panic -> "MODEL-PANIC")
